@@ -3,6 +3,7 @@ package main
 import (
 	"encoding/json"
 	"fmt"
+	"math/big"
 	"strings"
 
 	"github.com/db47h/decimal"
@@ -187,6 +188,34 @@ func c11Case(c *hx.Ctx, r *hx.RNG, idx int64) {
 		if z.Cmp(x) != 0 || z.Signbit() != x.Signbit() {
 			c.Violate("round-trip-differs", fmt.Sprintf("%s: parsed-back value does not compare equal / differs in sign", what), "")
 			return
+		}
+	}
+	// A second formatting after x was updated in place must show the new value: one unit is added at the lowest digit of
+	// an interior mantissa word (same array, same length, same lowest and highest word), and the text is read back.
+	if raw := hx.RawOf(x); v.Form == oracle.Finite && len(raw.W) >= 3 && (ft == "e" || ft == "E" || ft == "g" || ft == "G" || ft == "p" || ft == "MarshalText") {
+		wi := 1 + r.Intn(len(raw.W)-2)
+		unit := oracle.Val{Form: oracle.Finite, Neg: v.Neg, Coef: big.NewInt(int64(r.Range(1, 9))), Exp: int64(raw.Exp) - 19*int64(len(raw.W)-wi)}
+		if unit.LeadExp() >= oracle.MinExp {
+			x.Add(x, hx.Mk(unit, 1, 0))
+			nv := hx.Read(x)
+			var text2 string
+			if pi := hx.Try(func() {
+				if ft == "MarshalText" {
+					b, _ := x.MarshalText()
+					text2 = string(b)
+				} else {
+					text2 = x.Text(ft[0], -1)
+				}
+			}); pi != nil {
+				c.Violate("panic", fmt.Sprintf("%s, second formatting after an in-place update: %s panic %q", what, pi.Class, pi.Text), "")
+				return
+			}
+			z := new(decimal.Decimal).SetPrec(x.Prec())
+			if _, ok := z.SetString(text2); !ok || !oracle.Equal(hx.Read(z), nv) {
+				c.Violate("round-trip-differs", fmt.Sprintf("%s: after adding %s to x in place, the same formatting gives %q, which does not read back as the new value %s", what, unit.Full(), trunc120(text2), nv.Full()), "")
+				return
+			}
+			c.Count("second_formatting_after_in_place_update", 1)
 		}
 	}
 }
